@@ -28,9 +28,11 @@ def ls_quantities(c):
 def ls_knife(c):
     fig, _, _ = ls_quantities(c)
 
+    strict = c.get('stream') == 'exact'
+
     def k(a):
         D, after, p = fig[a]
-        return p is not None and (near_int(after) or near_int(Fraction(trunc(after)) / Fraction(p)))
+        return p is not None and (near_int(after, strict) or near_int(Fraction(trunc(after)) / Fraction(p), strict))
     return k
 
 
@@ -61,6 +63,18 @@ class C11(Prop):
             c['equity'] = E + bump * 2.0 ** -20 * max(E, 1.0)
             c['weights'] = [[a, 0.25 * s] for a, s in zip(assets, sgn)]
             c['prices'] = [[a, p0 if i == 0 else p0 / rng.choice([1, 2, 4])] for i, a in enumerate(assets)]
+            return c
+        if stream == 'nearly':
+            # gross exposure already (almost) equal to the leverage; a relative 1e-6 is worth whole shares
+            L = rng.choice([1.0, 2.0, 0.5, 1.5])
+            raw = [rng.choice([1, -1]) * (rng.random() + 0.05) for _ in assets]
+            g = sum(abs(x) for x in raw)
+            eps = rng.choice([0.0, 1e-9, -1e-9, 1e-7, 8e-6, -8e-6, 1e-5, -1e-5, 3e-5, 1e-4, -1e-4])
+            c['weights'] = [[a, x / g * L * (1 + eps)] for a, x in zip(assets, raw)]
+            c['param'] = L
+            c['equity'] = rng.choice([1e6, 5e6, 9e6, rng.uniform(1e6, 1e7)])
+            c['fee'] = ['zero'] if rng.random() < 0.6 else ['pct', 0.001, 0.0]
+            c['prices'] = [[a, rng.choice([1.0, 0.5, 2.0, round(rng.uniform(0.5, 3), 2)])] for a in assets]
             return c
         c['param'] = rng.choice([1.0, 1.5, 2.0, 0.5, 5.0, 0.01, round(rng.uniform(0.01, 5), 2), rng.uniform(0.001, 6)])
         c['equity'] = rng.choice([1e6, 325000.0, 687523.0, round(rng.uniform(100, 5e6), 2), rng.uniform(1, 1e7)])
@@ -97,7 +111,7 @@ class C11(Prop):
         out = []
         for i in range(n):
             r = rng.random()
-            out.append(self.gen_case(rng, 'random' if r < 0.65 else ('exact' if r < 0.85 else 'malformed')))
+            out.append(self.gen_case(rng, 'random' if r < 0.55 else ('exact' if r < 0.75 else ('nearly' if r < 0.88 else 'malformed'))))
         return out
 
     def model_case(self, c):
@@ -150,9 +164,15 @@ class C11(Prop):
             if abs(q) > 1 and (q > 0) != (x > 0):
                 out.append('%s: weight %s but target quantity %s has the other sign' % (a, float(x), q))
                 continue
-            if near_int(after) or near_int(Fraction(trunc(after)) / p):
+            y = Fraction(trunc(after)) / p
+            if near_int(after) or near_int(y):
                 j.knife += 1
                 continue
+            if c.get('stream') != 'exact' and (after.denominator == 1 or y.denominator == 1) and after != 0 and \
+                    abs(q) in (abs(trunc(y)) - 1, abs(trunc(Fraction(trunc(after) - (1 if after > 0 else -1)) / p))):
+                if q != trunc(y):
+                    j.knife += 1  # exact integer reached through inexact float steps: one unit / one share short
+                    continue
             if q != 0 and (q > 0) != (x > 0):
                 out.append('%s: weight %s but target quantity %s has the other sign' % (a, float(x), q))
             if abs(q) * p > abs(after):
